@@ -16,6 +16,12 @@ program is then called on inputs steering every combination of branch outcomes
 (both truth values) and trip counts (0, 1, 2) and must not fail with an
 unbound name or fall off its end.
 
+Besides the generic enumeration two exhaustive families are run: programs over
+comprehension atoms whose iterable mentions its own / a later / an earlier
+target (several generators, tuple targets), and two-level if/else nests whose
+arms return, define or fall through, followed by a use, at top level and
+inside `for` / `while` bodies (what ReachingDefs/DefineUse must agree on).
+
 Known finding (`for_target_defined_after_loop`): `_visit_for` leaves the loop
 target defined after the loop; the model has both the coded and the repaired
 rule (`accept` / `accept_fixed`), so the check passes on the unchanged tree
@@ -56,6 +62,9 @@ HEADER = ('From Coq Require Import List Bool Arith NArith.\n'
 
 KEY = 'for_target_defined_after_loop'
 KEY_RD = 'reaching_defs_drops_names_after_half_returning_if'
+KEY_COMP = 'comprehension_later_iterable_reads_own_target'
+# atoms in which an iterable other than the first reads a name that is a target of its own or a later generator
+COMP_CLASS = ('c_two',)
 
 U, V, P = 1, 2, 3          # names: locals u, v; the shared list parameter p
 FIRST_PARAM = 10           # b1.. / l1.. / n1.. get ids from here
@@ -171,6 +180,16 @@ def has_half_returning_if(b):
         elif s[0] in ('for', 'with'):
             if has_half_returning_if(s[2]):
                 return True
+    return False
+
+
+def contains_atom(b, atoms):
+    for s in b:
+        if s[0] == 'atom':
+            if s[1] in atoms:
+                return True
+        elif any(contains_atom(x, atoms) for x in s[1:] if isinstance(x, tuple)):
+            return True
     return False
 
 
@@ -417,6 +436,9 @@ def run(ck):
         'the program printer of the harness (one dataclass tree printed both as Python text and as Coq term)',
     ]
     ck.assumptions += ['model of the checker is hand-written; tie to /repo is the exhaustive verdict comparison below',
+                       'the model semantics lets every iterable of a comprehension see the enclosing bindings (what the checker assumes); '
+                       'the runtime compiles to a Python comprehension, whose later iterables see the comprehension-local targets instead - '
+                       'the divergence is a recorded finding (' + KEY_COMP + '), not covered by the theorems',
                        'expressions are abstracted to the names they read; tuple patterns to the names they bind']
     ok, _ = ck.build_static(['Props/C15.v', 'Cases/C15Cases.v'])
     if ok:
@@ -524,7 +546,11 @@ def run(ck):
         r = rendered[i]
         verdict = verdicts[i][0]
         rep = {'program': '\n'.join(r[0]), 'signature': r[1], 'decorator': verdict, 'model_case': cases[j]}
-        if pos not in coded_bad and pos in fixed_bad:
+        if contains_atom(progs[i], COMP_CLASS) and verdict != 'ok' and pos in coded_bad and pos in fixed_bad:
+            # the checker (both rules of the model) lets the iterable see the enclosing binding of the name;
+            # the compiled comprehension does not (KEY_COMP): a front end that rejects these is the repaired one
+            ck.count('comprehension-class:repaired')
+        elif pos not in coded_bad and pos in fixed_bad:
             # fpy2 behaves as the coded rule says, and the repaired rule says otherwise
             defect_class.add(i)
             ck.count('defect-class:present')
@@ -548,6 +574,11 @@ def run(ck):
         key = None
         if i in defect_class:
             key = KEY
+        elif contains_atom(progs[i], COMP_CLASS) and all('UnboundLocalError' in why for _, why in fails):
+            # accepted because the enclosing scope binds the name; the comprehension compiles to a Python
+            # comprehension, where the generator's own target shadows it and is not bound yet
+            key = KEY_COMP
+            ck.count('accepted-programs-that-fail-to-run:comprehension-scope')
         elif has_half_returning_if(progs[i]) and all('KeyError' in why for _, why in fails):
             # accepted rightly (the model agrees and proves it safe), but ReachingDefs / DefineUse,
             # which the interpreter runs first, loses the names only the non-returning arm introduces
